@@ -132,7 +132,7 @@ def build() -> Check:
         ck.ob("R1.state-threading", construct, not b1, (b1[0][0] + ": " + trace_sig(b1[0][1])) if b1 else "", cell=st)
         ck.ob("R2.strategy-arguments", construct, not b2, (b2[0][0] + ": " + trace_sig(b2[0][1])) if b2 else "", cell=st)
         ck.ob("R3.decision-implies-effect", construct, not b3, (b3[0][0] + ": " + trace_sig(b3[0][1])) if b3 else "", cell=st)
-    ck.floor("polls_judged", n_checks, 30)
+    ck.floor("polls_judged", n_checks, 6)
     return ck
 
 
